@@ -51,10 +51,11 @@ var longPool = []string{"verbose", "value", "name", "num", "list", "map", "level
 var shortPool = []rune("abcdfghilmnopqrstvxyzABCVX0159éλ日")
 
 type gen struct {
-	r      *rand.Rand
-	p      Profile
-	nField int
-	nCmd   int
+	plainIni bool
+	r        *rand.Rand
+	p        Profile
+	nField   int
+	nCmd     int
 }
 
 func (g *gen) chance(p float64) bool { return g.r.Float64() < p }
@@ -144,7 +145,9 @@ func (g *gen) initValue(code string) string {
 	}
 	sv := func(sc string) string {
 		switch sc {
-		case "str", "c0", "c1", "c2", "c3":
+		case "c0":
+			return "s:" + hx([]string{"INIT", "X Y"}[g.r.Intn(2)])
+		case "str", "c1", "c2", "c3":
 			return "s:" + hx([]string{"init", "x y", "é"}[g.r.Intn(3)])
 		case "bool":
 			return "b:1"
